@@ -136,7 +136,7 @@ type handle struct {
 	s    *appencryption.Session
 	part string
 	// stale: a later get for the same partition returned another underlying session, so this one left the cache
-	stale bool
+	stale     bool
 	usedStale bool
 }
 
